@@ -38,8 +38,12 @@ def plan(tier, seed):
     return [{"shard": i, "count": per, "seed": seed} for i in range(n)]
 
 
-def walk(root):
-    """[(word, section_path, item_depth, ref_ordinal, in_table)] in reading order, plus table info"""
+def walk(root, first_use=False):
+    """[(word, section_path, item_depth, ref_ordinal, in_table)] in reading order, plus table info.
+
+    A named reference used (empty) before the place that defines its text can be read at either place:
+    first_use=True reads the text at the first use (where MediaWiki numbers the footnote), False where
+    the text was written."""
     import re
     word = re.compile(r"[A-Za-z0-9]+")
     out = []
@@ -69,8 +73,38 @@ def walk(root):
             st.extend(x.children)
         return False
 
+    moved_to, skip = {}, set()
+    if first_use:
+        uses, seen_def = {}, set()
+        st = [root]
+        order = []
+        while st:
+            x = st.pop()
+            if type(x).__name__ == "Reference":
+                order.append(x)
+            st.extend(reversed(x.children))
+        for x in order:
+            name = (x.attributes.get("name") or "").strip('"')
+            if not name or name in seen_def:
+                continue
+            if has_words(x):
+                seen_def.add(name)
+                if name in uses:
+                    moved_to[id(uses[name])] = x
+                    skip.add(id(x))
+            elif name not in uses:
+                uses[name] = x
+
     def rec(node, secs, depth, ref, tabs):
         n = type(node).__name__
+        if id(node) in skip:
+            return
+        if id(node) in moved_to:
+            src = moved_to[id(node)]
+            refcount[0] += 1
+            for c in src.children:
+                rec(c, secs, depth, refcount[0], tabs)
+            return
         if n == "Text":
             for w in word.findall(node.caption or ""):
                 out.append((w, secs, depth, ref, bool(tabs)))
@@ -105,10 +139,33 @@ def walk(root):
             rec(c, secs, depth, ref, tabs)
 
     rec(root, (), 0, 0, [])
+    walk.relocated = bool(moved_to)
     return out, tables
 
 
-def compare(before, tables_before, after):
+def compare(before, tables_before, after, before_alt=None):
+    res = _compare(before, tables_before, after)
+    if res and before_alt is not None:
+        # the reading with forward-used named references read at their first use
+        r2 = _compare(before_alt[0], before_alt[1], after)
+        if r2 is None:
+            return None
+        # both readings disagree with the cleaned tree: report against the one that agrees longer
+        if _agree(before_alt[0], after) > _agree(before, after):
+            return r2
+    return res
+
+
+def _agree(before, after):
+    n = 0
+    for b, a in zip(before, after):
+        if b[:4] != a[:4]:
+            break
+        n += 1
+    return n
+
+
+def _compare(before, tables_before, after):
     bw = [b[0] for b in before]
     aw = [a[0] for a in after]
     if bw != aw:
@@ -155,6 +212,8 @@ def culprit(text, lang, kind):
     tree = parse_string("T", text, SynthDB({}, lang), lang=lang)
     advtree.build_advanced_tree(tree)
     before, tables_before = walk(tree)
+    alt = walk(tree, first_use=True)
+    alt = alt if walk.relocated else None
     tc = TreeCleaner(tree, save_reports=False)
     for name in TreeCleaner.cleaner_methods:
         try:
@@ -163,7 +222,7 @@ def culprit(text, lang, kind):
         except Exception:
             continue
         after, _ = walk(tree)
-        r = compare(before, tables_before, after)
+        r = compare(before, tables_before, after, alt)
         if r and r[0] == kind:
             return name
     return "several-passes"
@@ -182,18 +241,20 @@ def check_text(text, lang):
     tree = parse_string("T", text, SynthDB({}, lang), lang=lang)
     advtree.build_advanced_tree(tree)
     before, tables_before = walk(tree)
+    alt = walk(tree, first_use=True)
+    alt = alt if walk.relocated else None
     snap = snapshot(tree)
     tc = TreeCleaner(tree, save_reports=True)
     with contextlib.redirect_stdout(io.StringIO()), contextlib.redirect_stderr(io.StringIO()):
         tc.clean_all()
     errs = [r for r in tc.get_reports() if r[1].startswith("'ERROR:'")]
     after, tables_after = walk(tree)
-    res = compare(before, tables_before, after)
+    res = compare(before, tables_before, after, alt)
     if res:
         res = (res[0] + ":" + culprit(text, lang, res[0]), res[1])
     stats = {"words": len(before), "changed": snapshot(tree) != snap,
              "tables": sum(1 for t in tables_before if t[0] >= 2 and t[1] >= 2), "errors": len(errs),
-             "refs": any(b[3] for b in before), "lists": any(b[2] for b in before)}
+             "refs": any(b[3] for b in before), "fwd_refs": alt is not None, "lists": any(b[2] for b in before)}
     return res, stats
 
 
@@ -255,6 +316,8 @@ def one(R, seed, lang, maxwords):
     R.count("tables_tracked", st["tables"])
     if st["refs"]:
         R.count("with_refs")
+    if st["fwd_refs"]:
+        R.count("with_named_ref_used_before_its_text")
     if st["lists"]:
         R.count("with_lists")
     if st["errors"]:
